@@ -443,7 +443,7 @@ func (p *Pair) StartHandshakes(timeout time.Duration) {
 		if timeout <= 0 {
 			return context.Background()
 		}
-		ctx, cancel := context.WithTimeout(context.Background(), timeout)
+		ctx, cancel := context.WithTimeout(context.Background(), p.S.Uniq(timeout))
 		p.cancel = append(p.cancel, cancel)
 
 		return ctx
